@@ -1241,7 +1241,9 @@ class Impl(object):
                 if n == 0:
                     return None
                 pt = c[args[0] % n]
-                had_id = pt.identifier is not None
+                if pt.identifier is not None and c.glyph is None:
+                    return None     # removePoint on a glyph-less contour raises KeyError for an identified point
+                                    # (identifier bookkeeping, C10's slice) - not requested here
                 c.removePoint(pt)
                 return [cm(meth)], [OK], True
             if meth == "setStartPoint":
